@@ -71,6 +71,31 @@ func (a *Analyzer) chanOps() []chanOp {
 }
 
 func runChannels(a *Analyzer, r *Results) {
+	// Z4.sleep: waiting is done on a context (select / <-ctx.Done()), never by an uninterruptible sleep
+	{
+		blocking := map[string]bool{"time.Sleep": true, "(*sync.WaitGroup).Wait": true, "(*sync.Cond).Wait": true}
+		n := 0
+		for _, f := range a.P.Funcs {
+			for _, b := range f.Blocks {
+				for _, in := range b.Instrs {
+					ci, ok := in.(ssa.CallInstruction)
+					if !ok {
+						continue
+					}
+					g := ci.Common().StaticCallee()
+					if g == nil || !blocking[g.String()] {
+						continue
+					}
+					n++
+					r.Check("Z4.sleep", props("C16", "C15"), "library code never waits in a call that cancellation cannot interrupt (time.Sleep, WaitGroup/Cond waits): every pause is a select or receive on a context", funcID(f), a.P.InstrPos(in), false,
+						g.String()+" cannot be interrupted by the context: shutdown (or a superseded height) waits for it", "X")
+				}
+			}
+		}
+		if n == 0 {
+			r.Check("Z4.sleep", props("C16", "C15"), "library code never waits in a call that cancellation cannot interrupt (time.Sleep, WaitGroup/Cond waits): every pause is a select or receive on a context", "none", a.P.Pos(a.P.Func("(*leanhelix.MainLoop).run").Pos()), true, "", "X")
+		}
+	}
 	ops := a.chanOps()
 	r.Stats["X.channel_ops"] = len(ops)
 	nSel := 0
